@@ -94,8 +94,17 @@ func (p *Parser) ParseFile(filename string, varPool *VarPool) (*MetaData, []*Bui
 		}
 	}
 
+	// The previous output of this file is about to be overwritten: whatever it
+	// declares or imports must not influence name allocation, otherwise a second
+	// run in the same directory renames variables (e.g. app -> app0).
+	absOutput, _ := filepath.Abs(outputFileName(filename))
+	isOwnOutput := func(f *ast.File) bool {
+		absFile, err := filepath.Abs(p.fset.Position(f.Package).Filename)
+		return err == nil && absFile == absOutput
+	}
+
 	for _, f := range pkg.Syntax {
-		if f == nil {
+		if f == nil || isOwnOutput(f) {
 			continue
 		}
 
@@ -131,7 +140,7 @@ func (p *Parser) ParseFile(filename string, varPool *VarPool) (*MetaData, []*Bui
 	}
 
 	for _, f := range pkg.Syntax {
-		if f == nil {
+		if f == nil || isOwnOutput(f) {
 			continue
 		}
 
